@@ -222,6 +222,12 @@ pub fn generate(rng: &mut Rng, mode: Mode, form: Form) -> Graph {
         if i == 0 && cat_prelude {
             lines.push("#define CAT(a,b) a##b".into());
         }
+        if i == 0 && form == Form::Compile && rng.chance(4, 5) {
+            // most compile-form programs should be valid: start with every macro defined
+            for m in MACROS {
+                lines.push(format!("#define {m} {}", rng.range(1, 9)));
+            }
+        }
         match protection {
             1 => lines.push(hash(rng, "#pragma once")),
             2 => {
